@@ -265,7 +265,8 @@ class CFormatter(Formatter):
     ) -> str:
         message_name = self.format_message_name(d.message)
         prefix = self.bp_processor_name_prefix()
-        return f"{prefix}Array{message_name}{d.number}"
+        # The underscore keeps message `A1` field 2 apart from message `A` field 12.
+        return f"{prefix}Array{message_name}_{d.number}"
 
     def format_bp_array_processor_name_from_alias(self, t: Array, d: Alias) -> str:
         alias_name = self.format_alias_name(d)
@@ -300,7 +301,8 @@ class CFormatter(Formatter):
     ) -> str:
         message_name = self.format_message_name(d.message)
         prefix = self.bp_json_formatter_name_prefix()
-        return f"{prefix}Array{message_name}{d.number}"
+        # The underscore keeps message `A1` field 2 apart from message `A` field 12.
+        return f"{prefix}Array{message_name}_{d.number}"
 
     def format_bp_array_json_formatter_name_from_alias(self, t: Array, d: Alias) -> str:
         alias_name = self.format_alias_name(d)
